@@ -79,8 +79,12 @@ def main():
             rp = os.path.join(demo, "RUN.txt")
             if os.path.exists(rp):
                 lines = [l.strip() for l in open(rp) if l.strip() and not l.strip().startswith("#")]
-                cands = [l for l in lines if l.startswith("go ") or " go test" in l or l.startswith("cd ")]
-                run = (cands or lines or [None])[0]
+                # Drop "cd <repo>" placeholders and environment preambles; keep
+                # the line that actually runs the demonstration.
+                lines = [re.sub(r"^cd\s+<[^>]*>\s*(&&|;)?\s*", "", l) for l in lines]
+                lines = [re.sub(r"^cd\s+\S*(repo|worktree|REPO)\S*\s*(&&|;)\s*", "", l) for l in lines]
+                cands = [l for l in lines if re.search(r"\bgo (test|run|build)\b", l)]
+                run = (cands or [l for l in lines if l] or [None])[0]
         res["demo_cmd"] = run
         if run:
             run = re.sub(r"/tmp/mut/%s\b" % pid, wt, run)
